@@ -49,6 +49,42 @@ CLAIMED = {
         "note": "links already present in the output directory, unusual file systems and a store to a validated digest field between validation and use are not decided.",
         "design": "DESIGN.md §3 C20",
     },
+    "C02": {
+        "technique": "mutation-to-resync reachability per setter of the seven manifest implementations, same-value check of raw body / digest / size at each resync, mismatch-edge reachability in the constructors, option audit of manifest.New on the fetch paths, cache aliasing audit",
+        "text": "Structural necessary conditions: after any store into the embedded content struct (and on every success return of a Set* method) raw body and descriptor are re-synchronised; each resync stores json.Marshal output as raw body and derives digest and size from that same value; fromCommon/fromOrig recompute the digest with FromBytes, run verifyMT before every success return and return no manifest from the digest-mismatch edge; MarshalJSON returns the stored raw body; the registry put sends m.MarshalJSON(), the layout put writes m.RawBody() under m.GetDescriptor(); the scheme get paths build the result with manifest.New(WithRef(caller's ref), headers/raw, index descriptor). Known finding D13: the manifest cache shares mutable objects with callers.",
+        "note": "JSON re-marshal fidelity, parse-back equality, and edits made by callers through slices returned by getters are not decided.",
+        "design": "DESIGN.md §3 C02",
+    },
+    "C03": {
+        "technique": "getter/consumer audit of the five graph traversals, data-flow from getter results into the goroutines' copy calls, AST check of early success returns, extraction and comparison of media-type case tables, dominance checks of the waiter protocol, in-place-filter lint",
+        "text": "Structural necessary conditions: copy, layout GC mark, export, import and mod consult GetManifestList, GetConfig and GetLayers; in the copy each result is the descriptor handed to imageCopyOpt/imageCopyBlob inside a goroutine, and ReferrerList/TagList are consulted; the only early `return nil` is under the digest-equality test; completions carry the child's error, nested copies go by digest with the child flag and tagged copies without it, a failed BlobGet/BlobPut never reaches `return nil`; the first copier stores its error before close(done) and forgets a failed entry under the lock; copy, import and export agree on the manifest media types; no filter builds its result in param[:0].",
+        "note": "that the target really holds the closure for every graph, pairing, pre-existing state and interleaving, the external-URL policy and registry features are not decided.",
+        "design": "DESIGN.md §3 C03",
+    },
+    "C09": {
+        "technique": "getter and media-type table cross-check with the copy, dominance of the already-written test over every archive write, value-origin of entry name and fetched content, reachability from the archive-scan error edge, value-origin of RepoTags",
+        "text": "Structural necessary conditions: export and import consult the same getters and media-type tables as the copy; in the export walk the already-written test dominates every write and its hit edge reaches none, the header writer refuses duplicates; entry name, ManifestGet(WithManifestDesc) and BlobGet use the same descriptor parameter and the blob byte count is compared with its size; every ManifestPut of the OCI import is inside a function appended to the finish list, the list is run from its last entry down and is unreachable from the error edge of the archive scan; the Docker manifest is pushed on the success edge of the second pass; RepoTags is CommonName() of a reference that went through SetTag on every path.",
+        "note": "the archive state machine over entry orders and links (seeded change C09-1 not detected), compression, Docker-format layer re-compression and round-trip equality are not decided.",
+        "design": "DESIGN.md §3 C09",
+    },
+    "C11": {
+        "technique": "who-may-call audit of credential writers, value-origin of handler-table keys and of the outgoing request's header map, access-path identity of the host entry inside an attempt, dominating guards for the http scheme, backward taint from slog arguments to secret fields with masking recognised by must-pass-through",
+        "text": "Structural necessary conditions: Authorization / SetBasicAuth / password and refresh_token form fields are written only in internal/auth and token requests go to the handler's realm; the per-host handler tables are indexed by exactly URL.Host (or the caller's host string); in an attempt URL host, auth handler and HTTP client come from the same host entry, and the request's header map is created inside the attempt; \"http\" is stored only under TLS == TLSDisabled; the redirect hook calls UpdateRequest on the redirected request and bounds the chain; none of ~1900 slog arguments is derived from a password/token field or a generated Authorization value, credential structs are logged only with their secret fields masked on every path, request headers only as the censored clone. Known finding D12: a 401 from a redirect target or DirectURL host is answered with the registry's credentials.",
+        "note": "non-interference over all topologies and challenge sequences, Location downgrades and credential helpers are not decided.",
+        "design": "DESIGN.md §3 C11",
+    },
+    "C15": {
+        "technique": "constant folding of the package-level pattern parts (P9) and structural inspection of the parsed patterns with regexp/syntax (anchors, per-group alphabets, repeat bounds), field write audit of the Set* methods, extraction and comparison of scheme case tables, order check of the Docker Hub normalisation",
+        "text": "Bounds on the accepted language, which hold for every input string: all four folded patterns are anchored at both ends in every alternative; the repository group ⊆ [a-z0-9._/-], tag groups are 1..128 characters of [A-Za-z0-9_.-] starting with [A-Za-z0-9_], digest groups end in ≥32 hex digits, the layout path group has no ':' or '@', the scheme group is one or more lower-case letters; New/NewHost take the scheme from a submatch of that anchored pattern; SetTag/SetDigest/AddDigest write only Tag, Digest and Reference = CommonName() afterwards; the Hub aliases are rewritten before the library/ prefix is decided; accepted schemes are compared with the printer, the comparison functions and the client's scheme table (known finding D14: ocifile).",
+        "note": "round trip and rejection over the whole language and host name parsing in config/host.go are not decided.",
+        "design": "DESIGN.md §3 C15",
+    },
+    "C16": {
+        "technique": "extraction of the normaliser's switch statements as a finite table and exhaustive evaluation of that table over its own constants plus one unknown value per field; dominance check that the comparator's platform is normalised before it is stored",
+        "text": "Only the normal-form sentence of the property (and one ordering fact) is decided: the alias table extracted from (*Platform).normalize maps every documented alias to its canonical value; normalising twice equals normalising once for all 12167 tuples over the table's constants and an unknown value per field (unknown values are only compared, never rewritten, so this covers all strings); every architecture case of the table is accepted by the arch-only parser; NewCompare stores the host platform only after normalize() ran on it.",
+        "note": "NOT decided: that the chosen entry is runnable, that an exact match wins, that the preference is a strict order independent of list order (values of Compatible/Better over a cross product; seeded change C16-1 is not detected). These clauses are not applicable to static analysis without copying the functions.",
+        "design": "DESIGN.md §3 C16",
+    },
     "C04": {
         "technique": "statement-level path counting over go/cfg (sends per goroutine path, receives/decrements per barrier iteration, must-pass-through to the manifest write) plus SSA value-origin checks of completion values and recursive-call arguments",
         "text": "Ordering core, decided for every schedule and fault because it is the shape of the CFG: each goroutine of the copy traversal is counted before it starts and sends exactly one completion on every path after its last client call; every iteration path of the barrier loop is one receive + one decrement (the early non-blocking loop balances receives and decrements, with its flag tracked); every path to the ManifestPut passes the barrier exit and the nil edge of the received error; no spawn after the barrier, nothing mutating after the write; nested manifests go by digest with the child flag, tags without it; a failed source read / target write in BlobCopy never reaches `return nil`; the shared seen-entry is completed with the copy's own error.",
